@@ -69,11 +69,35 @@ def gen(tier, rng, shard, nshards):
         key = C.rbytes(rng, rng.choice([1, 1, 2, 3, 4, 4, 7, 16]))
         yield "xor", f"xor {C.hx(d)} {C.hx(key)}"
 
-    # ---- netbios: every byte × offsets; odd lengths; out-of-range
+    # large inputs (block-wise "optimisations"): sizes around 64 KiB / 128 KiB / 1 MiB with keys that do not divide them
+    big = [65535, 65536, 65537, 70001, 131072 + 5] + ([262144 + 3, 1048576 + 7] if thorough else [])
+    for n in big:
+        for kl in (3, 5, 7, 4, 13):
+            if not mine():
+                continue
+            d = rng.randbytes(n)
+            yield "xor", f"xor {C.hx(d)} {C.hx(C.rbytes(rng, kl))}"
+
+    # ---- netbios: every byte × every offset; odd lengths; out-of-range
     offs = [0, 0x41, 0x61, 240, 241, 255, -1, 1, 0x30, 300]
     for off in offs:
         if mine():
             yield "nbenc", f"nbenc {C.hx(bytes(range(256)))} {off}"
+    # full (byte, offset) sweep: one line with all 256 bytes per offset, encode and decode of the reference encoding
+    for off in range(-3, 260):
+        if not mine():
+            continue
+        allb = bytes(range(256))
+        yield "nbenc", f"nbenc {C.hx(allb)} {off}"
+        if 0 <= off <= 240:
+            enc = bytes(x for c in allb for x in ((c >> 4) + off, (c & 15) + off))
+            yield "nbdec", f"nbdec {C.hx(enc)} {off}"
+            yield "nbdec", f"nbdec {C.hx(enc.lower())} {off}"
+            yield "nbdec", f"nbdec {C.hx(enc.upper())} {off}"
+        else:
+            for c in range(0, 256, 5):
+                yield "nbenc", f"nbenc {C.hx(bytes([c]))} {off}"
+                yield "nbdec", f"nbdec {C.hx(bytes([c, (c * 7 + 3) % 256]))} {off}"
     for b in range(256):
         for off in offs:
             if not mine():
@@ -158,7 +182,8 @@ def gen(tier, rng, shard, nshards):
             u = gen_uri(rng)
             b = u.encode("utf-8", "ignore") if rng.random() < 0.8 else u.encode("latin-1", "ignore")
             req = C.hx(b)
-        yield "gate", f"gate {req} {rng.choice('TF')}"
+        meth = rng.choice(["GET", "GET", "POST", "HEAD", "get", "", "PUT"])
+        yield "gate", f"gate {req} {rng.choice('TF')} {C.hx(meth.encode())}"
 
 
 def solve(rng, n, target):
@@ -270,7 +295,7 @@ def impl(stream, line):
 
         req = None
         if w[1] != "none":
-            req = HttpRequest(method=b"GET", uri=C.unhx(w[1]), params={}, headers={}, body=b"")
+            req = HttpRequest(method=C.unhx(w[3]), uri=C.unhx(w[1]), params={}, headers={}, body=b"")
         resp = HttpResponse(status=200, headers={}, reason=b"OK", body=b"payload", request=req)
         saved = pcap.BeaconConfig
         pcap.BeaconConfig = Stub
@@ -305,13 +330,30 @@ def oracle(stream, line, out):
             return False
         if not any(k):
             return o == d
-        return utils.xor(o, k) == d and all(o[i] == d[i] ^ k[i % len(k)] for i in range(len(d)))
+        return all(o[i] == d[i] ^ k[i % len(k)] for i in range(len(d)))
     if stream == "nbenc":
         d, off = C.unhx(w[1]), int(w[2])
         if out.startswith("ok "):
             e = C.unhx(out[3:])
-            return len(e) == 2 * len(d) and utils.netbios_decode(e, off) == d
+            return len(e) == 2 * len(d) and bytes((((e[i] - off) << 4) + (e[i + 1] - off)) & 0xFF for i in range(0, len(e) - 1, 2)) == d
         return not (0 <= off <= 240) or None
+    if stream == "nbdec":
+        e, off = C.unhx(w[1]), int(w[2])
+        if len(e) % 2 == 0 and all(off <= x <= off + 15 for x in e) and 0 <= off <= 240:
+            want = bytes(((e[i] - off) << 4) + (e[i + 1] - off) for i in range(0, len(e), 2))
+            return out == "ok " + C.hx(want)
+        return None
+    if stream == "unpack":
+        d = C.unhx(w[1])
+        if w[2] != "none":
+            n = int(w[2])
+            d = d[:n]
+        v = 0
+        for b in (d if w[3] == "big" else d[::-1]):
+            v = v * 256 + b
+        if w[4] == "T" and d and v >= 256 ** len(d) // 2:
+            v -= 256 ** len(d)
+        return out == str(v)
     if stream == "pack":
         if w[2] == "0" and w[1] == "-1":
             return None  # CPython quirk: (-1).to_bytes(0, signed=True) == b'' (theorem pack_width0_quirk)
